@@ -12,5 +12,6 @@ CONSTANTS
   Drivers = {"iour"}
   Impls = {"blocking"}
   Families = {"echo", "producer"}
+  BlockingChildPipes = FALSE
 SPECIFICATION Spec
 INVARIANTS TypeOK SequentialNeverStuck
